@@ -49,10 +49,14 @@ def oracle(case):
 
 @st.composite
 def notif_cases(draw):
-    entries = draw(st.lists(st.one_of(reqgen.valid_entries(notif_bias=True), reqgen.valid_entries(notif_bias=True), reqgen.entries()), min_size=1, max_size=6))
+    # what the failing callable raises (index into refmodel.exception_factories()); when it is drawn, the callable is called
+    exc = draw(st.sampled_from([0, 0, 0, 1, 4, 6, 8, 9, 10, 10]))
+    methods = st.sampled_from(["boom", "boom", "boom", "echo", "ident", "nope", "badkeys"]) if exc else None
+    entries = draw(st.lists(st.one_of(reqgen.valid_entries(methods, notif_bias=True), reqgen.valid_entries(methods, notif_bias=True), reqgen.entries(methods)), min_size=1, max_size=6))
     body = ("single", entries[0]) if len(entries) == 1 and draw(st.booleans()) else ("batch", entries)
     return {"body": body, "version": draw(st.sampled_from([1.0, 2.0])), "jsonclass": draw(st.booleans()),
-            "mode": draw(st.sampled_from(dc.MODES)), "ascii": draw(st.booleans())}
+            "mode": draw(st.sampled_from(dc.MODES)), "ascii": draw(st.booleans()), "exc": exc,
+            "handlers": draw(st.one_of(st.none(), st.none(), st.sampled_from(sorted(refmodel.HANDLER_TABLES))))}
 
 
 # -- client side
